@@ -268,6 +268,27 @@ func init() {
 		}
 		return fr.ex.mkError(fr.ex.strConcat("rpc error: ", a[1]))
 	})
+	// status.FromContextError(err).Err(): a *Status is a cell holding its message (nil = OK)
+	reg("google.golang.org/grpc/status.FromContextError", func(fr *frame, a []value) value {
+		var cell value = structure{nil}
+		if e, ok := a[0].(iface); ok && e.t != nil {
+			cell = structure{value("rpc error: context error")}
+		}
+		return &cell
+	})
+	statusErr := func(fr *frame, a []value) value {
+		p, ok := a[0].(*value)
+		if !ok || p == nil {
+			return iface{}
+		}
+		st, ok := (*p).(structure)
+		if !ok || len(st) == 0 || st[0] == nil {
+			return iface{}
+		}
+		return fr.ex.mkError(st[0])
+	}
+	reg("(*google.golang.org/grpc/status.Status).Err", statusErr)
+	reg("(*google.golang.org/grpc/internal/status.Status).Err", statusErr)
 	reg("google.golang.org/grpc/status.Errorf", func(fr *frame, a []value) value {
 		return fr.ex.mkError(fr.ex.strConcat("rpc error: ", fr.ex.sprintf(a[1], a[2].([]value))))
 	})
